@@ -141,6 +141,10 @@ func checkEquiv(w *worker, c *EquivCase) ([]finding, string) {
 		return fs, desc
 	}
 	a, b := outcomeOf(op, ctUnary), outcomeOf(oj, ctJSON)
+	if strings.HasPrefix(c.MsgName, "no-response") && (a.st.Code == 0 || b.st.Code == 0) {
+		add("no-response-reported-as-success", fmt.Sprintf("pb=%d/%d,json=%d/%d", a.st.Code, a.st.HTTP, b.st.Code, b.st.HTTP), "the handler returned neither a response nor an error, yet the reply is a success carrying a message")
+		return fs, desc
+	}
 	switch {
 	case a.st.Code != b.st.Code || a.st.HTTP != b.st.HTTP:
 		add("json-equiv-status", fmt.Sprintf("pb=%d/%d,json=%d/%d", a.st.Code, a.st.HTTP, b.st.Code, b.st.HTTP), "status differs between the protobuf and the JSON encoding of the same request")
